@@ -655,6 +655,37 @@ impl KeyKeeper {
         }
     }
 
+    /// The key folder may not be restricted yet: creating or restricting it at start-up may have failed,
+    /// or it was removed and re-created since. (Re)create and (re)restrict it, and refuse to store a key in it otherwise.
+    #[cfg(not(windows))]
+    fn ensure_key_dir_restricted(key_dir: &Path) -> Result<()> {
+        use std::os::unix::fs::PermissionsExt;
+        let is_restricted = |dir: &Path| {
+            fs::metadata(dir)
+                .map(|m| m.is_dir() && m.permissions().mode() & 0o077 == 0)
+                .unwrap_or(false)
+        };
+        if is_restricted(key_dir) {
+            return Ok(());
+        }
+        misc_helpers::try_create_folder(key_dir).map_err(|e| {
+            Error::Key(KeyErrorType::StoreLocalKey(format!(
+                "create key folder '{}' failed {}",
+                key_dir.display(),
+                e
+            )))
+        })?;
+        _ = acl::acl_directory(key_dir.to_path_buf());
+        if is_restricted(key_dir) {
+            Ok(())
+        } else {
+            Err(Error::Key(KeyErrorType::StoreLocalKey(format!(
+                "key folder '{}' is not restricted to its owner",
+                key_dir.display()
+            ))))
+        }
+    }
+
     fn store_key(key_dir: &Path, key: &Key) -> Result<()> {
         #[cfg(windows)]
         {
@@ -663,6 +694,8 @@ impl KeyKeeper {
         }
         #[cfg(not(windows))]
         {
+            // the key is stored in plain text, its folder must be restricted to the owner by now
+            Self::ensure_key_dir_restricted(key_dir)?;
             Self::store_local_key(key_dir, key, false)
         }
     }
